@@ -342,7 +342,7 @@ class Engine:
         st.m[(l, p)] = v
       a = Analysis(self, callee_body, st, depth, record=False)
       a.run()
-      out = None
+      acc = None
       for rb in callee_body.return_blocks():
         for s in a.out_states(rb):
           raw = s.subtree((0, ()))
@@ -353,10 +353,9 @@ class Engine:
               for tp, tv in s.subtree((v[1], v[2])).items():
                 if tv[0] != 'r':
                   sub[p + ('*',) + tp] = tv
-          if out is None:
-            out = sub
-          else:
-            out = {p: join_val(v, sub[p]) for p, v in out.items() if p in sub and join_val(v, sub[p]) is not None}
+          # join the return states with the variant-aware state join (several disjuncts reach the return under partitioning)
+          acc = join_state(acc, State({(0, p): v for p, v in sub.items()}))
+      out = None if acc is None else {k[1]: v for k, v in acc.m.items()}
       if self.truncations == trunc_before:
         # only results that did not depend on a depth-truncated inner call are reusable at other depths
         self.summaries[key] = out
